@@ -456,6 +456,15 @@ func (c *Cluster) TimerDue(p int64) bool {
 	}
 }
 
+// TimerPeek reports whether p's real round timer has fired, without consuming the tick.
+func (c *Cluster) TimerPeek(p int64) bool {
+	pr := c.procs[p]
+	pr.mu.Lock()
+	rc := pr.realCh
+	pr.mu.Unlock()
+	return rc != nil && len(rc) > 0
+}
+
 // Crash stops p.
 func (c *Cluster) Crash(p int64) {
 	pr := c.procs[p]
